@@ -24,6 +24,10 @@ class HarnessExc(Exception):
     """Raised on purpose by generated method bodies / predicates."""
 
 
+class HarnessTypeError(HarnessExc, TypeError):
+    """... of a type the library itself catches in places (a TypeError): it must pass through all the same."""
+
+
 _BIND = re.compile(
     r"(missing \d+ required|takes (from )?\d+|takes no |got an unexpected keyword|"
     r"got multiple values|positional-only arguments passed as keyword|"
